@@ -481,7 +481,7 @@ class AtLeast(puan.Proposition):
                             map, 
                             lambda x: list(
                                 map(
-                                    lambda y: f"{x.id}-{y.id}",
+                                    lambda y: (x.id, y.id),
                                     x.propositions
                                 )
                             )
